@@ -238,16 +238,35 @@ def elem_sources(prog, sc, e, mode, depth):
 
 
 def literals(prog, prefix="bemodel::convert::from_ctehexml::", adt_prefix="bemodel::types"):
-    """(scope, adt short name, node, loc) for every model-type struct literal built in the converter"""
-    out = []
+    """(scope, adt short name, node, loc) for every model-type struct literal built in the converter.  A literal that sits in a private helper is read once per
+    call site of the helper, with the helper's parameters bound to the caller's arguments (so `win.height` reads `bdl.windows[].height`); when the helper
+    has no caller that can be followed it is read as written"""
+    local, bound = {}, {}
     for f in sorted(prog.fns.values(), key=lambda f: f.id):
         if not f.path.startswith(prefix) or f.root != f.id:
             continue
         root = Scope(prog, f)
-        for sc in root.local_scopes():
+        # the conversion entry point only distributes `&data.bdldata` over the *_from_bdl functions: those are read in their own terms (bdl, id_maps),
+        # the helpers below them in the terms of their callers
+        entry = "TryFrom<" in f.path
+        for sc in (root.local_scopes() if entry else root.all_scopes()):
             for b, i, s in sc.body.statements():
                 if s["s"] == "assign" and s["rv"]["r"] == "agg" and s["rv"].get("adt", "").startswith(adt_prefix):
-                    out.append((sc, s["rv"]["adt"].split("::")[-1], sc.rvalue(s["rv"]), sc.fn.loc(s.get("ln"))))
+                    ident = (sc.fn.id, b, i)
+                    item = (sc, s["rv"]["adt"].split("::")[-1], sc.rvalue(s["rv"]), sc.fn.loc(s.get("ln")))
+                    helper_instance = prog.root_of(sc.fn).id != f.id
+                    if helper_instance:
+                        shown = show(item[2])
+                        if all(show(x[2]) != shown for x in bound.get(ident, [])):
+                            bound.setdefault(ident, []).append(item)
+                    else:
+                        local.setdefault(ident, item)
+    out = []
+    for ident in sorted(local):
+        if ident in bound:
+            out += bound[ident]
+        else:
+            out.append(local[ident])
     return out
 
 
@@ -269,6 +288,24 @@ def idmaps_model(ctx, prog):
         inl = inline_helper(prog, v) if v[0] == "call" else None
         if inl is not None:
             v = strip(inl)
+        if v[0] == "var":
+            # a table filled by a loop: `for x in coll { match x { V(e) => table.insert(name, id(e)) .. } }`
+            from ..cfgq import norm_for_elem
+            ids = set()
+            src = None
+            for b_, t_ in idmaps_new.body.calls():
+                if short_callee(callee_name(t_) or "") == "insert" and len(t_["args"]) == 3:
+                    r_ = strip(isc.operand(t_["args"][0]))
+                    if r_[0] == "var" and r_[1] == v[1]:
+                        val = norm_for_elem(strip(isc.operand(t_["args"][2])))
+                        for x in walk(val):
+                            idf = id_function(prog, x)
+                            if idf:
+                                ids.add(idf)
+                                src = src or idf[1].split("[]")[0]
+            if ids:
+                tables[fld] = (src, ids)
+                continue
         ch = iter_chain(v)
         src = ch.source_name()
         ids = set()
